@@ -53,6 +53,11 @@ def main():
     if rc:
         print(out)
         return 2
+    # run the checks from a snapshot of /verif, so that editing the harness meanwhile cannot disturb them
+    snap = f"/tmp/vsnap_{a.sid}"
+    shutil.rmtree(snap, ignore_errors=True)
+    subprocess.run(["rsync", "-a", "--exclude", "_work", "--exclude", "seeded", "--exclude", "replays",
+                    "--exclude", "evidence", "--exclude", ".git", "/verif/", snap + "/"], check=True)
     res = dict(repo_head=subprocess.run(["git", "-C", "/repo", "rev-parse", "--short", "HEAD"],
                                         capture_output=True, text=True).stdout.strip(),
                at=time.strftime("%Y-%m-%dT%H:%M:%S"))
@@ -79,8 +84,8 @@ def main():
             print(f"[{a.sid}] tests: {res['tests_with_mutant']} | demo repo={rc0} mutant={rc1} | valid={res['valid']}")
         checks = {}
         for p in props:
-            rc, out, dt = sh(["/verif/check", p, "--tier", a.tier], cwd="/verif", env=dict(VERIF_REPO=wt),
-                             timeout=5400)
+            rc, out, dt = sh([snap + "/check", p, "--tier", a.tier], cwd=snap,
+                             env=dict(VERIF_REPO=wt, VERIF_ROOT=snap), timeout=5400)
             viol = [ln for ln in out.split("\n") if ln.startswith("VIOLATION")]
             detail = [ln.strip() for ln in out.split("\n") if ln.strip().startswith("violation ")]
             checks[p] = dict(exit=rc, wall_s=dt, violations=len(viol),
@@ -96,8 +101,7 @@ def main():
     finally:
         subprocess.run(["git", "-C", "/repo", "worktree", "remove", "--force", wt],
                        stdout=subprocess.DEVNULL, stderr=subprocess.DEVNULL)
-        alt = os.path.join("/verif/_work/alt", hashlib.sha1(wt.encode()).hexdigest()[:10])
-        shutil.rmtree(alt, ignore_errors=True)
+        shutil.rmtree(snap, ignore_errors=True)
     old = meta.get("verif", {})
     if a.skip_validate:
         for k in ("tests_with_mutant", "tests_pass", "demo_on_repo_exit", "demo_on_mutant_exit",
